@@ -80,4 +80,52 @@ theorem run_single_diag (fs : Bytes → Option Bytes) (main data : Bytes) (hfs :
       simp only [Asm.finalize, hG, Asm.globalLoop, Asm.rounds, List.isEmpty_nil, if_true]
       exact ⟨_, rfl, by simp [Asm.Outcome.success, Asm.St.hasErrored, hE], by simp [hE]⟩
 
+theorem run_single_diag_image (fs : Bytes → Option Bytes) (main data : Bytes) (hfs : fs main = some data)
+    (els : List Element) (perr : Option ParseErr) (hp : Asm.parseFile data = .ok (els, perr))
+    (pre post : List Element) (el : Element) (hels : els = pre ++ el :: post)
+    (S : Asm.St) (hpre : PrefixOk fs main pre S) (hq : QuietSt S) (k : Asm.Kind) (lv : Asm.Level)
+    (hel : Asm.statement fs Asm.encoder (Asm.assembleFile fs Asm.encoder (Asm.maxDepth - 1)) ⟨[main], main⟩ S el =
+      .ok (S.push ⟨[main], main⟩ el.line el.col k, .err lv)) :
+    ∃ o, Asm.run fs main = .done o ∧ o.success = false ∧ o.diags = [⟨main, el.line, el.col, k⟩] ∧
+      o.image = (Seg.closeSegment S.seg).1.map := by
+  obtain ⟨he, hg, hl⟩ := hq
+  subst hels
+  have hdo : Asm.doAssemble fs Asm.encoder (Asm.assembleFile fs Asm.encoder (Asm.maxDepth - 1)) ⟨[main], main⟩
+      (pre ++ el :: post) perr init2 = .ok (S.push ⟨[main], main⟩ el.line el.col k, .err lv) := by
+    rw [hpre]; simp only [Asm.doAssemble, hel]
+  have hfb := fileBody_eq' fs (Asm.assembleFile fs Asm.encoder (Asm.maxDepth - 1)) ⟨[main], main⟩ data init2 _ perr hp
+  rw [hdo] at hfb
+  have hbody : Asm.fileBody fs Asm.encoder (Asm.assembleFile fs Asm.encoder (Asm.maxDepth - 1)) ⟨[main], main⟩ data init2 =
+      .ok (S.push ⟨[main], main⟩ el.line el.col k, .err lv) := by
+    rw [hfb]
+    simp only
+    split
+    · rfl
+    · simp only [Asm.St.push, Asm.St.pushIn, hl, Asm.localLoop, Asm.rounds, List.isEmpty_nil, if_true]
+  have hA := assembleFile_main_eq fs data main
+  rw [hbody] at hA
+  simp only at hA
+  have hnp := Asm.run_no_panic fs main
+  unfold Asm.run Asm.runWith at hnp ⊢
+  simp only [hfs, hA] at hnp ⊢
+  have hE : (Asm.leaveFile none none (S.push ⟨[main], main⟩ el.line el.col k)).errors = [⟨main, el.line, el.col, k⟩] := by
+    simp [Asm.leaveFile, Asm.St.push, Asm.St.pushIn, he]
+  have hG : (Asm.leaveFile none none (S.push ⟨[main], main⟩ el.line el.col k)).globalTasks = [] := by
+    simp [Asm.leaveFile, Asm.St.push, Asm.St.pushIn, hg]
+  have hSeg : (Asm.leaveFile none none (S.push ⟨[main], main⟩ el.line el.col k)).seg = S.seg := rfl
+  rw [hSeg] at hnp ⊢
+  cases hc : Seg.closeSegment S.seg with
+  | mk s' out =>
+    rw [hc] at hnp
+    cases out with
+    | diag e => exact ⟨_, rfl, by simp [Asm.Outcome.success], by simp [hE], rfl⟩
+    | panic => simp at hnp
+    | ok =>
+      simp only [Asm.finalize, hG, Asm.globalLoop, Asm.rounds, List.isEmpty_nil, if_true]
+      exact ⟨_, rfl, by simp [Asm.Outcome.success, Asm.St.hasErrored, hE], by simp [hE], rfl⟩
+    | placed a =>
+      simp only [Asm.finalize, hG, Asm.globalLoop, Asm.rounds, List.isEmpty_nil, if_true]
+      exact ⟨_, rfl, by simp [Asm.Outcome.success, Asm.St.hasErrored, hE], by simp [hE], rfl⟩
+
+
 end Trion.C04
